@@ -993,7 +993,12 @@ def leaf_strategy():
     base = st.one_of(B["int_lit"], B["str_lit"], B["svar"], anyvar, B["trans"], B["float_lit"], B["str_lit"], B["svar"])
     plain_leaf = st.tuples(base, _filters()).map(lambda bf: {"t": "leaf", "b": bf[0], "f": bf[1]})
     tpl_leaf = _tpl().map(lambda b: {"t": "leaf", "b": b, "f": []})
-    strat = st.one_of(plain_leaf, plain_leaf, plain_leaf, tpl_leaf)
+    # a literal head whose value nevertheless depends on the context: the filter argument is a string variable
+    strvar = st.sampled_from(STR_PATHS).map(lambda p: {"t": "var", "p": p})
+    lit_head = st.tuples(st.one_of(B["str_lit"], B["trans"], B["int_lit"]), st.sampled_from(["add", "default", "cut", "default_if_none"]), strvar).map(
+        lambda t: {"t": "leaf", "b": t[0], "f": [{"n": t[1], "a": t[2]}]}
+    )
+    strat = st.one_of(plain_leaf, plain_leaf, plain_leaf, plain_leaf, plain_leaf, tpl_leaf, tpl_leaf, lit_head)
     _strat_cache["leaf"] = strat
     return strat
 
